@@ -29,6 +29,9 @@ ASSUMPTIONS = [
     '"unsupported or unroutable request" is read at CIP level (unsupported service code, unknown tag/object inside SendRRData); '
     'frames with an unknown *encapsulation command* are not generated here (the simulator closes the connection without a '
     'reply; C08 covers "reply or close")',
+    'every second shard runs against a simulator started with --route-path 1/0 (wrapped requests then carry 1/0; the final '
+    'frame may carry a route path differing in port, link, length or link kind, which must be answered with a non-zero '
+    'encapsulation status); against the unconfigured simulator the same frame is an ordinary request',
     'at most one request that must end the session (non-zero encapsulation status) per sequence, placed last, because the '
     'server ends the session after such a reply',
     'end-of-stream is the completion signal: a sequence is judged only after the server closed the connection; a socket '
@@ -47,6 +50,7 @@ SPECS = [
     {'name': 'Motor.Speed', 'type': 'LREAL', 'length': 2, 'address': None},
 ]
 ADDR = {}       # name -> numeric address, filled per process by _addresses()
+ROUTE = [None]  # the route path this process' simulator is configured with (None: unconfigured, accepts any)
 TIMEOUT = 30.0
 
 
@@ -90,11 +94,12 @@ def request(draw):
 
 
 @st.composite
-def cases(draw, max_len):
+def cases(draw, max_len, routed=False):
     reqs = draw(st.lists(request(), min_size=1, max_size=max_len))
-    final = draw(st.sampled_from(['unregister', 'unregister', 'bad_service', 'unknown_tag', 'unknown_object']))
+    final = draw(st.sampled_from(['unregister', 'unregister', 'bad_service', 'unknown_tag', 'unknown_object', 'wrong_route']))
     depth = draw(st.sampled_from([1, 2, 8, 1000]))
-    return {'requests': reqs, 'final': {'kind': final, 'context': draw(contexts)}, 'depth': depth,
+    return {'requests': reqs, 'final': {'kind': final, 'context': draw(contexts), 'how': draw(st.sampled_from(['port', 'link', 'longer', 'kind', 'other']))},
+            'depth': depth, 'routed': routed,
             'register_context': draw(contexts)}
 
 
@@ -114,26 +119,34 @@ def encode_request(r, handle):
         op = r['op']
         msg = opmsg(op)
         wrap = op.get('wrap', True) or op['svc'] == 'read_frag'
-        return rc.rr_frame(handle, rc.unconnected_send(msg) if wrap else msg, ctx), {'cmd': 0x6F, 'service': msg[0] | 0x80, 'ok': True}
+        return rc.rr_frame(handle, rc.unconnected_send(msg, route_path=ROUTE[0]) if wrap else msg, ctx), {'cmd': 0x6F, 'service': msg[0] | 0x80, 'ok': True}
     if k == 'bundle':
         msg = rc.req_multiple([opmsg(op) for op in r['ops']])
-        return rc.rr_frame(handle, rc.unconnected_send(msg), ctx), {'cmd': 0x6F, 'service': 0x8A, 'ok': True, 'members': len(r['ops'])}
+        return rc.rr_frame(handle, rc.unconnected_send(msg, route_path=ROUTE[0]), ctx), {'cmd': 0x6F, 'service': 0x8A, 'ok': True, 'members': len(r['ops'])}
     if k == 'gaa':
         msg = rc.req_get_attributes_all([{'class': 1}, {'instance': 1}])
-        return rc.rr_frame(handle, rc.unconnected_send(msg) if r.get('wrap') else msg, ctx), {'cmd': 0x6F, 'service': 0x81, 'ok': True}
+        return rc.rr_frame(handle, rc.unconnected_send(msg, route_path=ROUTE[0]) if r.get('wrap') else msg, ctx), {'cmd': 0x6F, 'service': 0x81, 'ok': True}
     if k in ('list_services', 'list_identity', 'list_interfaces', 'legacy'):
         return rc.encap(rc.CMD[k], handle, b'', ctx), {'cmd': rc.CMD[k], 'ok': True}
     if k == 'unregister':
         return rc.unregister(handle, ctx), {'cmd': 0x66, 'none': True}
     if k == 'bad_service':
         msg = rc.mr_request(0x4B, [{'symbolic': 'I16'}], b'\x01\x00')
-        return rc.rr_frame(handle, rc.unconnected_send(msg), ctx), {'cmd': 0x6F, 'ok': False}
+        return rc.rr_frame(handle, rc.unconnected_send(msg, route_path=ROUTE[0]), ctx), {'cmd': 0x6F, 'ok': False}
     if k == 'unknown_tag':
         msg = rc.req_read_tag([{'symbolic': 'NoSuchTag'}], 1)
-        return rc.rr_frame(handle, rc.unconnected_send(msg), ctx), {'cmd': 0x6F, 'ok': False}
+        return rc.rr_frame(handle, rc.unconnected_send(msg, route_path=ROUTE[0]), ctx), {'cmd': 0x6F, 'ok': False}
+    if k == 'wrong_route':
+        msg = rc.req_read_tag([{'symbolic': 'I16'}], 1)
+        wrong = {'port': [{'port': 2, 'link': 0}], 'link': [{'port': 1, 'link': 1}], 'longer': [{'port': 1, 'link': 0}, {'port': 1, 'link': 1}],
+                 'kind': [{'port': 1, 'link': '0'}], 'other': [{'port': 3, 'link': '10.0.0.1'}]}[r.get('how', 'link')]
+        if ROUTE[0] is None:
+            # an unconfigured simulator accepts any route path: this is then an ordinary request, followed by the session's end
+            return rc.rr_frame(handle, rc.unconnected_send(msg, route_path=wrong), ctx), {'cmd': 0x6F, 'service': 0xCC, 'ok': True, 'then_eof': False}
+        return rc.rr_frame(handle, rc.unconnected_send(msg, route_path=wrong), ctx), {'cmd': 0x6F, 'ok': False}
     if k == 'unknown_object':
         msg = rc.req_get_attribute_single([{'class': 0x95}, {'instance': 1}, {'attribute': 1}])
-        return rc.rr_frame(handle, rc.unconnected_send(msg), ctx), {'cmd': 0x6F, 'ok': False}
+        return rc.rr_frame(handle, rc.unconnected_send(msg, route_path=ROUTE[0]), ctx), {'cmd': 0x6F, 'ok': False}
     raise AssertionError(k)
 
 
@@ -222,10 +235,31 @@ def run_tcp(server, case):
             expect_n = sum(1 for i in g if not encoded[i][1].get('none'))
             last = gi == len(groups) - 1
             if last:
-                more, eof = sim.recv_until_eof(sock, TIMEOUT)
-                if not eof:
-                    raise common.HarnessError('server did not close the connection within %ss after the final frame' % TIMEOUT)
-                buf += more
+                # read to end-of-stream; stop early only when the answer to the final frame already decides the case: a
+                # request that must be refused at encapsulation level was answered with status 0 (the session then stays open)
+                import time as _time
+                deadline = _time.time() + TIMEOUT
+                total_expected = sum(1 for f, x in encoded if not x.get('none'))
+                while True:
+                    fr, _rest = rc.split_frames(buf)
+                    if (len(got) + len(fr) >= total_expected and not encoded[-1][1].get('none') and not encoded[-1][1]['ok']
+                            and rc.dec_encap(fr[-1])['status'] == 0):
+                        eof = True          # not judged: the violation is the zero status itself
+                        break
+                    remaining = deadline - _time.time()
+                    if remaining <= 0:
+                        raise common.HarnessError('server did not close the connection within %ss after the final frame' % TIMEOUT)
+                    sock.settimeout(remaining)
+                    try:
+                        chunk = sock.recv(65536)
+                    except socket.timeout:
+                        raise common.HarnessError('server did not close the connection within %ss after the final frame' % TIMEOUT)
+                    except (ConnectionResetError, BrokenPipeError):
+                        chunk = b''
+                    if not chunk:
+                        eof = True
+                        break
+                    buf += chunk
             else:
                 while True:
                     fr, rest = rc.split_frames(buf)
@@ -256,7 +290,14 @@ def run_tcp(server, case):
 
 
 def run_inproc(case):
-    dev = sim.Device(SPECS)
+    ucmm_class = None
+    if case.get('routed'):
+        from cpppo.server.enip import ucmm
+
+        class UCMM(ucmm.UCMM):
+            route_path = [{'port': 1, 'link': 0}]
+        ucmm_class = UCMM
+    dev = sim.Device(SPECS, ucmm_class=ucmm_class)
     try:
         addr = ('127.0.0.9', 4242)
         rctx = bytes.fromhex(case['register_context'])
@@ -311,7 +352,15 @@ _SERVER = [None]
 
 
 def pred(case, stats):
-    _SERVER[0] = sim.per_process('c06', lambda: sim.TcpServer(SPECS))
+    ROUTE[0] = [{'port': 1, 'link': 0}] if case.get('routed') else None
+    have = sim._PER_PROCESS.get('c06-routed' if not case.get('routed') else 'c06-plain')
+    import os
+    if have is not None and have[0] == os.getpid():
+        raise common.HarnessError('this process already runs a simulator with the other route-path configuration')
+    _SERVER[0] = sim.per_process('c06-routed' if case.get('routed') else 'c06-plain',
+                                 lambda: sim.TcpServer(SPECS, extra_argv=(['--route-path', '1/0'] if ROUTE[0] else [])))
+    if case['final']['kind'] == 'wrong_route' and ROUTE[0] is None:
+        case = dict(case, requests=case['requests'] + [case['final']], final={'kind': 'unregister', 'context': case['final']['context']})
     nt = classify(case, None)
     stats.case(case, nontrivial=nt, classes=['final:' + case['final']['kind'], 'depth:%d' % case['depth'],
                                              'len:%d' % min(len(case['requests']), 10)] +
@@ -326,13 +375,16 @@ def pred(case, stats):
 
 
 CLAUSES = {'sequence': pred}
-STRATEGIES = {'sequence': lambda k: cases(k)}
+STRATEGIES = {'sequence': lambda key: cases(*key) if isinstance(key, (tuple, list)) else cases(key)}
 
 
 def shard(job):
     seed, i, n, k = job
+    # every second shard runs against a simulator configured with --route-path 1/0 (requests then carry that route path)
+    routed = bool(i % 2)
     s = Stats()
-    common.hyp_run(s, cases(k), pred, n, common.shard_seed(seed, i), 'sequence', PID, skey=k)
+    s.count('shard:routed' if routed else 'shard:unconfigured')
+    common.hyp_run(s, cases(k, routed), pred, n, common.shard_seed(seed, i), 'sequence', PID, skey=(k, routed))
     return s
 
 
